@@ -170,6 +170,18 @@ def step (_ : Unit) (ws : List String) : Unit × String :=
           else
             let tail := (List.range n).map (fun i => b.u8 (b.size - n + i))
             if tail == ser then "same" else "DIFFERENT")
+  | ["cks", hx, sx] =>
+      -- the checksum column of the seek table the real writer emitted, as the model derives it from the SOURCE and the table's frame cut
+      let b := if hx == "-" then ByteArray.empty else ByteArray.ofHex hx
+      let x := if sx == "-" then ByteArray.empty else ByteArray.ofHex sx
+      ((), match Seekable.load b with
+        | .error _ => "err"
+        | .ok (es, ck) =>
+          let ds := es.map (·.dSize)
+          if ds.foldl (· + ·) 0 != x.size then s!"err frames-cover {ds.foldl (· + ·) 0} of {x.size} bytes"
+          else
+            let cs := Seekable.expectedChecksums x ck 0 ds
+            s!"ok n={es.length} ck={if ck then 1 else 0} e=" ++ ",".intercalate ((ds.zip cs).map (fun (d, c) => s!"{d}:{c}")))
   | ["idx", hx, ps] =>
       let b := if hx == "-" then ByteArray.empty else ByteArray.ofHex hx
       ((), match Seekable.load b with
